@@ -204,6 +204,7 @@ func newCompiler
   ensures result != nil && result.ddpModule == module
 
 func Compile [C07]
+  maxpaths 40000
   callsite compile requires arg0.ddpModule != nil && arg0.ddpModule.Ast != nil && !arg0.ddpModule.Ast.Faulty
 
 func compileWithImportsRec [C07]
